@@ -473,8 +473,9 @@ def _solver_deprecation(kwargs, options, solver="me"):
     Function to help the transition from v4 to v5.
     Raise warnings for solver input that where moved from parameter to options.
     """
-    if options is None:
-        options = {}
+    # The deprecated keywords are merged into a copy, not into the caller's
+    # own dictionary.
+    options = {} if options is None else dict(options)
     # TODO remove by 5.1
     if "progress_bar" in kwargs:
         warnings.warn(
